@@ -353,6 +353,27 @@ theorem chain_bound (ps : List (Option Policy)) (n : Int) (hn : some (maxRedirec
   simp only [List.length_nil, List.length_cons] at this ⊢
   omega
 
+/-- **chain_max_exact**: with MaxRedirectPolicy(n) alone the limit is met exactly: the number of
+requests is `min (chain length) (max 1 n)` — never fewer than allowed, never more. -/
+theorem chain_max_exact (n : Int) (h0 : Hop) (targets : List Bytes) :
+    ((runChain [some (maxRedirectPolicy n)] h0 targets).1.length : Int) =
+      min ((targets.length : Int) + 1) (max 1 n) := by
+  have hb := chain_bound [some (maxRedirectPolicy n)] n (by simp) h0 targets
+  obtain ⟨later, hs⟩ := follow_spec [some (maxRedirectPolicy n)] h0.hdr targets { via := { first := h0 } }
+  have hsent : (runChain [some (maxRedirectPolicy n)] h0 targets).1 = h0 :: later := by
+    simpa [runChain, Via.toList] using hs.sent
+  rw [hsent] at hb ⊢
+  have hlen := hs.len
+  simp only [List.length_cons] at hb ⊢
+  by_cases hlt : later.length < targets.length
+  · obtain ⟨t, _, p, hp, hne⟩ := hs.stop hlt
+    have hp' : p = maxRedirectPolicy n := by simpa using hp
+    subst hp'
+    have := mt (max_redirect n t _).mpr hne
+    simp only [Via.length, List.nil_append] at this
+    omega
+  · omega
+
 /-- **no_redirect_never**: with NoRedirectPolicy anywhere in the composition only the original
 request is ever sent, and a chain that wanted to redirect does not end `final`. -/
 theorem no_redirect_never (ps : List (Option Policy)) (hn : some noRedirectPolicy ∈ ps)
